@@ -175,7 +175,7 @@ def alias_cases(tier):
     for ai in range(len(ALIASES)):
         for tf in ('json', 'yaml', 'xml', 'plist'):
             for which in range(3):
-                for extra in ([], ['-l'], ['-j'], ['-k']):
+                for extra in ([], ['-l'], ['-j'], ['-k'], ['--html'], ['--html', '-k'], ['-e'], ['--format', 'yaml']):
                     yield {'leg': 'alias', 'alias': ai, 'tf': tf, 'doc': which, 'extra': extra}
     # library agreement of every option set and layout
     for opt in OPTION_SETS:
@@ -192,6 +192,58 @@ def alias_cases(tier):
                     yield {'leg': 'options', 'opt': ['auto', 'on'], 'tf': tf, 'doc': which, 'jl': False, 'jd': False, 'color': color, 'fmt': fmt}
             for opt in OPTION_SETS:
                 yield {'leg': 'options', 'opt': list(opt), 'tf': tf, 'doc': which, 'jl': False, 'jd': False, 'color': False, 'mode': '-e'}
+
+
+# characters that some line-splitting primitives (str.splitlines) treat as line boundaries but that are ordinary data
+SEPARATORS = ('\u2028', '\u2029', '\x85', '\x0c', '\x0b', '\x1c', '\x1d', '\x1e', '\r', ' ')
+
+
+def status_cases(tier):
+    for si in range(len(SEPARATORS)):
+        for tf in ('csv', 'xml', 'json', 'yaml'):
+            for fmt in (None, 'csv', 'xml', 'json', 'yaml'):
+                for mode in (None, '-e'):
+                    yield {'leg': 'status', 'sep': si, 'tf': tf, 'fmt': fmt, 'mode': mode}
+
+
+def status_content(tf, sep, side):
+    last = ('b', 'c')[side]
+    if tf == 'csv':
+        return f'id,note\n1,first{sep}second\n2,{last}\n'
+    if tf == 'xml':
+        if sep in '\x0c\x0b\x1c\x1d\x1e':
+            sep = ' '           # not allowed in XML 1.0 documents
+        return f'<r><a t="p{sep}q">x{sep}y</a><b>{last}</b></r>'
+    doc = {'note': f'first{sep}second', 'k': last, 'lines': [f'a{sep}', 'z']}
+    if tf == 'json':
+        return json.dumps(doc, ensure_ascii=False)
+    import yaml
+    return yaml.safe_dump(doc, allow_unicode=True)
+
+
+def status_eval(case):
+    """The same command with status output on (the default), off and quiet, on streams that look like the standard
+    streams of a process: stdout and exit status must be identical, and equal to the plain capture run."""
+    dirp = pairspace.tmpdir()
+    tf, sep = case['tf'], SEPARATORS[case['sep']]
+    fa = cli.write_file(dirp, 'st_a' + EXT[tf], status_content(tf, sep, 0))
+    fb = cli.write_file(dirp, 'st_b' + EXT[tf], status_content(tf, sep, 1))
+    tail = ['--no-color'] + (['--format', case['fmt']] if case['fmt'] else []) + ([case['mode']] if case['mode'] else []) + [fa, fb]
+    ref = cli.run_main(['--no-status'] + tail)
+    n = 1
+    if ref.exc:
+        return n, {'key': f'cli_exception {ref.exc} @ {ref.exc_site} : status leg', 'detail': ' '.join(tail) + ref.tb[-1200:]}, set()
+    for flags in ([], ['--no-status'], ['--quiet']):
+        o = cli.run_main(flags + tail, like_a_process=True)
+        n += 1
+        name = ' '.join(flags) or '(status output on)'
+        if o.exc:
+            return n, {'key': f'cli_exception {o.exc} @ {o.exc_site} : status leg, {name}', 'detail': ' '.join(flags + tail) + o.tb[-1200:]}, set()
+        if (o.rc, o.out) != (ref.rc, ref.out):
+            return n, {'key': f'output_depends_on_status_setting @ __main__.main : {name} on process-like streams, input {tf}',
+                       'detail': f'{" ".join(flags + tail)}; separator {sep!r}; {name}: rc={o.rc} {o.out[:300]!r}; '
+                                 f'reference (--no-status, plain stream): rc={ref.rc} {ref.out[:300]!r}'}, set()
+    return n, None, {h(('status', json.dumps(case, sort_keys=True), ref.rc, ref.out))}
 
 
 def conflicts(a, b):
@@ -213,7 +265,9 @@ def alias_eval(case):
         extra = case['extra']
         if conflicts(s1 + s2, extra):
             return 0, None, set()
-        base = ['--no-status'] + ([] if conflicts(s1 + s2, ['--no-color']) else ['--no-color']) + extra
+        base = ['--no-status'] + ([] if (conflicts(s1 + s2, ['--no-color']) or '--html' in extra) else ['--no-color']) + extra
+        if '--html' in extra and conflicts(s1 + s2, ['--color']):
+            return 0, None, set()
         o1 = cli.run_main(base + s1 + [fa, fb])
         o2 = cli.run_main(base + s2 + [fa, fb])
         for o in (o1, o2):
@@ -239,13 +293,15 @@ def alias_eval(case):
 
 
 def all_cases(tier):
-    return list(lattice_cases(tier)) + list(alias_cases(tier))
+    return list(lattice_cases(tier)) + list(alias_cases(tier)) + list(status_cases(tier))
 
 
 def evaluate(case):
     try:
         if case['leg'] == 'lattice':
             return lattice_eval(case)
+        if case['leg'] == 'status':
+            return status_eval(case)
         return alias_eval(case)
     except CaseTimeout:
         return 0, {'key': 'timeout @ __main__.main', 'detail': json.dumps(case)}, set()
